@@ -632,7 +632,8 @@ class Run:
                     await self.drive()
 
         async def controller(tg_scope: CancelScope) -> None:
-            assert cancel is not None
+            if cancel is None:
+                raise RuntimeError("harness: no cancel spec")
             if cancel["t"] > 0:
                 await anyio.sleep(cancel["t"])
             for _ in range(200):
@@ -643,7 +644,8 @@ class Run:
             if cancel.get("native"):
                 self.host_task.cancel()
             else:
-                assert self.scope is not None
+                if self.scope is None:
+                    raise RuntimeError("harness: no scope")
                 self.scope.cancel()
 
         try:
